@@ -112,10 +112,11 @@ def tree_case(draw, min_n=1, max_n=40, shapes=None, regimes=None, permute=None, 
         if regime == "coincident" and p != -1 and not distinct_points and draw(st.integers(0, 3)) == 0:
             xs[i], ys[i], zs[i] = xs[p], ys[p], zs[p]
         else:
-            for _ in range(20):
-                c = (draw(coord), draw(coord), draw(coord))
-                if not distinct_points or c not in seen:
-                    break
+            c = (draw(coord), draw(coord), draw(coord))
+            k = 0
+            while distinct_points and c in seen:  # constructed, not filtered: step aside until unique
+                k += 1
+                c = (f32(c[0] + 0.125 * k), f32(c[1] + 0.25 * (k % 3)), c[2])
             xs[i], ys[i], zs[i] = c
         seen.add((xs[i], ys[i], zs[i]))
     rs = [draw(radius()) for _ in range(n)]
